@@ -193,6 +193,22 @@ Definition mid_stmt (target : list Z) (xstart : Z) (xnum : option Z) (val : list
   do _ <- (if num >? 0 then range_check strfn_midstmt_start_lo (zlen target) start else Ok tt);
   midset target start num val same.
 
+(* the same statement with the source given as an expression: the argument checks come first, then the
+   source expression is evaluated (its errors propagate) and its VALUE - a fresh string, never the
+   target's buffer - is copied in *)
+Definition mid_stmt_src (target : list Z) (xstart : Z) (xnum : option Z) (src : res (list Z))
+  : res (list Z) :=
+  do start <- to_int xstart;
+  do num <- match xnum with None => Ok strfn_midstmt_default_num | Some x => to_int x end;
+  do _ <- range_check strfn_midstmt_num_lo strfn_midstmt_num_hi num;
+  do _ <- (if num >? 0 then range_check strfn_midstmt_start_lo (zlen target) start else Ok tt);
+  do val <- src;
+  midset target start num val false.
+
 (* DataSegment.lset_ / rset_ *)
 Definition lset_stmt (target s : list Z) : res (list Z) := lset target s false.
 Definition rset_stmt (target s : list Z) : res (list Z) := lset target s true.
+
+(* LSET / RSET with the source given as an expression (evaluated first, errors propagate) *)
+Definition lset_src (target : list Z) (src : res (list Z)) (justify_right : bool) : res (list Z) :=
+  do s <- src; lset target s justify_right.
